@@ -67,6 +67,9 @@ typedef struct {
   // For #line directive
   char *display_name;
   int line_delta;
+
+  // How deeply the file is nested in #include directives
+  int include_depth;
 } File;
 
 // Token type
